@@ -75,6 +75,9 @@ func OverlapStress(r *gen.Rng, n int) []VCase {
 	comp := map[string][][2]string{"Pet": {{"owner", "Human"}, {"friends", "Pet"}}, "Dog": {{"owner", "Human"}, {"friends", "Pet"}}, "Cat": {{"owner", "Human"}, {"friends", "Pet"}}, "Human": {{"pet", "Pet"}, {"pets", "Pet"}}}
 	for i := 0; i < n; i++ {
 		nf := 2 + r.Intn(3)
+		// one document in four lets fragments spread any fragment: cycles (invalid, but every
+		// rule must still terminate on them)
+		cyclic := r.Chance(1, 4)
 		fragType := make([]string, nf)
 		for j := range fragType {
 			fragType[j] = gen.Pick(r, []string{"Human", "Human", "Human", "Pet", "Dog", "Cat"})
@@ -122,7 +125,7 @@ func OverlapStress(r *gen.Rng, n int) []VCase {
 		}
 		sb.WriteString("}")
 		for j := 0; j < nf; j++ {
-			sb.WriteString(" fragment F" + itoa(j) + " on " + fragType[j] + " " + sel(fragType[j], 2, j+1))
+			sb.WriteString(" fragment F" + itoa(j) + " on " + fragType[j] + " " + sel(fragType[j], 2, map[bool]int{false: j + 1, true: 0}[cyclic]))
 		}
 		out = append(out, VCase{Srcs: []string{overlapSchema}, Query: sb.String()})
 	}
